@@ -951,3 +951,13 @@ def repro(c):
     if a[0] == 'glob':
         return 'from netaddr import *; glob_to_cidrs(%r)' % a[1]
     return 'from netaddr import *; list(iter_unique_ips(%s))' % ', '.join(_src(it) for it in a[1])
+
+
+def shrink(c, fails):
+    """drop list items while cidr_merge still violates the property"""
+    a = c.args
+    if a[0] != 'merge':
+        return c
+    _, items, perm = a
+    red = common.shrink_seq(items, lambda l: len(l) >= 1 and fails(Case(None, c.tag, ('merge', tuple(l), tuple(range(len(l)))))))
+    return Case(None, c.tag, ('merge', tuple(red), tuple(range(len(red)))))
